@@ -371,6 +371,64 @@ def precedence_case(item):
         shutil.rmtree(d, ignore_errors=True)
 
 
+# ---------------------------------------------------------------------------------------------------
+# sequences of command-line invocations inside ONE interpreter (ffcx.main.main called repeatedly, as build systems and test drivers do):
+# every invocation must write exactly what it writes when it is the only one of its process
+SEQ_FILES = {
+    "seqa.py": "import basix.ufl\nfrom ufl import *\nm = Mesh(basix.ufl.element('P', 'triangle', 1, shape=(2,)))\nV = FunctionSpace(m, basix.ufl.element('P', 'triangle', 1))\n"
+               "u, v = TrialFunction(V), TestFunction(V)\na = inner(u, v) * dx\n",
+    "seqb.py": "import basix.ufl\nfrom ufl import *\nm = Mesh(basix.ufl.element('P', 'triangle', 1, shape=(2,)))\nV = FunctionSpace(m, basix.ufl.element('P', 'triangle', 2))\n"
+               "u, v = TrialFunction(V), TestFunction(V)\nf = Coefficient(V)\na = f * inner(grad(u), grad(v)) * dx\nL = f * v * ds\n",
+}
+SEQ_INVOCATIONS = {
+    "A": ["seqa.py"], "B": ["seqb.py"], "Ao": ["-o", "outx", "-i", "seqa.py"], "Bn": ["-n", "nsy", "-i", "seqb.py"],
+    "Anumba": ["--language", "numba", "seqa.py"], "Bf32": ["--scalar_type", "float32", "seqb.py"], "AB": ["seqa.py", "seqb.py"],
+}
+_SEQ_CHILD = r"""
+import sys, json, os, hashlib
+import ffcx.main
+for args in json.loads(sys.argv[1]):
+    rc = ffcx.main.main(list(args))
+    if rc not in (0, None):
+        print("SEQ-RESULT " + json.dumps({"error": "main returned %r for %r" % (rc, args)})); sys.exit(0)
+out = {}
+for f in sorted(os.listdir(".")):
+    if f.endswith((".h", ".c")) or f.endswith("_numba.py"):
+        out[f] = hashlib.sha1(open(f, "rb").read()).hexdigest()
+print("SEQ-RESULT " + json.dumps(out))
+"""
+
+
+def _seq_run(arglists):
+    d = scratch()
+    try:
+        for f, t in SEQ_FILES.items():
+            open(os.path.join(d, f), "w").write(t)
+        env = dict(os.environ, XDG_CONFIG_HOME=os.path.join(d, "_xdg"), HOME=d)
+        r = subprocess.run([PY, "-c", _SEQ_CHILD, json.dumps(arglists)], cwd=d, capture_output=True, text=True, env=env, timeout=900)
+        line = [l for l in r.stdout.splitlines() if l.startswith("SEQ-RESULT ")]
+        if not line:
+            return dict(error=(r.stderr or r.stdout)[-400:])
+        return json.loads(line[-1][len("SEQ-RESULT "):])
+    finally:
+        shutil.rmtree(d, ignore_errors=True)
+
+
+_ALONE = {}  # invocation name -> files written when it is the only invocation of its process (filled before the pool forks)
+
+
+def sequence_case(item):
+    names = list(item)
+    alone = {n: (_ALONE[n] if n in _ALONE else _seq_run([SEQ_INVOCATIONS[n]])) for n in dict.fromkeys(names)}
+    got = _seq_run([SEQ_INVOCATIONS[n] for n in names])
+    want = {}
+    for n in names:
+        if "error" in alone[n]:
+            return dict(item=names, skipped=f"invocation {n} fails on its own: {alone[n]['error'][-160:]}")
+        want.update(alone[n])
+    return dict(item=names, got=got, want=want)
+
+
 def same_value(a, b):
     if a is None:
         return False
@@ -387,6 +445,8 @@ def same_value(a, b):
 def _dispatch(item):
     if item[0] == "file":
         return dict(kind="file", r=check_file(item[1:]))
+    if item[0] == "seq":
+        return dict(kind="seq", r=sequence_case(item[1:]))
     return dict(kind="prec", r=precedence_case(item[1:]))
 
 
@@ -409,7 +469,13 @@ def main():
     for opt, (v1, v2) in OPTION_VALUES.items():
         for cli, pwd, usr in itertools.product((None, v1, v2), repeat=3):
             items.append(("prec", opt, cli, pwd, usr))
-    tot = dict(files=0, files_ok=0, rejected=0, kernels_compared=0, precedence_cases=0, precedence_skipped=0, forms=0, expressions=0)
+    # all sequences of <= 2 (quick) / <= 3 (thorough) invocations of ffcx.main.main inside one interpreter
+    for n, r in pmap(lambda k: _seq_run([SEQ_INVOCATIONS[k]]), sorted(SEQ_INVOCATIONS), desc="C20 single invocations"):
+        _ALONE[n] = r
+    for n in range(2, (3 if chk.thorough else 2) + 1):
+        for seq in itertools.product(sorted(SEQ_INVOCATIONS), repeat=n):
+            items.append(("seq",) + tuple(seq))
+    tot = dict(files=0, files_ok=0, rejected=0, kernels_compared=0, precedence_cases=0, precedence_skipped=0, forms=0, expressions=0, invocation_sequences=0)
     samples, rejected = [], []
     for it, r in pmap(_dispatch, items, desc="C20"):
         if r["kind"] == "file":
@@ -428,6 +494,20 @@ def main():
             else:
                 f = fr["failures"][0]
                 chk.violation(f"{PID}:{fr['key']}:{f['kind']}", f"{fr['key']}: {f['text']}", recipe=dict(kind="file", item=[it[1], it[2], it[3]]), observed=fr["failures"][:4])
+        elif r["kind"] == "seq":
+            sr = r["r"]
+            if "skipped" in sr:
+                continue
+            tot["invocation_sequences"] += 1
+            key = "+".join(sr["item"])
+            if "error" in sr["got"]:
+                chk.violation(f"{PID}:sequence:{key}:raises", f"ffcx.main.main called for {sr['item']} in one interpreter fails: {sr['got']['error'][-200:]}", recipe=dict(kind="seq", item=sr["item"]))
+            elif sr["got"] != sr["want"]:
+                missing = sorted(set(sr["want"]) - set(sr["got"]))
+                extra = sorted(set(sr["got"]) - set(sr["want"]))
+                differ = sorted(f for f in sr["want"] if f in sr["got"] and sr["got"][f] != sr["want"][f])
+                chk.violation(f"{PID}:sequence:{key}", f"invocations {sr['item']} of ffcx.main.main in one interpreter do not write what each writes on its own: missing files {missing}, "
+                              f"unexpected files {extra}, files with other content {differ}", recipe=dict(kind="seq", item=sr["item"]), observed=dict(got=sr["got"], want=sr["want"]))
         else:
             pr = r["r"]
             opt, cli, pwd, usr = pr["item"]
@@ -443,7 +523,7 @@ def main():
             elif not same_value(pr["effective"], want):
                 chk.violation(f"{PID}:precedence:{opt}:cli={cli},pwd={pwd},user={usr}", f"option {opt}: command line={cli}, $PWD json={pwd}, user json={usr}: effective value is {pr['effective']!r}, "
                               f"expected {want!r} (from {src}; precedence CLI > pwd > user > default)", recipe=dict(kind="prec", item=pr["item"]), observed=dict(header=pr.get("header", "")[:600]))
-    cov = dict(states=tot["files"] + tot["precedence_cases"], transitions=tot["kernels_compared"] + tot["precedence_cases"], traces_validated_against_impl=tot["files_ok"],
+    cov = dict(states=tot["files"] + tot["precedence_cases"] + tot["invocation_sequences"], transitions=tot["kernels_compared"] + tot["precedence_cases"] + tot["invocation_sequences"], traces_validated_against_impl=tot["files_ok"],
                evaluations=tot["files"] + tot["precedence_cases"], distinct_nontrivial=tot["files_ok"], totals=tot, rejected_files=rejected[:20], samples=samples or [dict(note="none")], exhaustive=True,
                rule=("every demo file + 5 generated files x command-line variants: files written, stand-alone gcc -std=c17, nm symbols vs header externs, aliases via cffi ABI mode, every kernel vs the JIT kernel, "
                      "name maps vs the UFL file, numba output parses; all 27 source combinations {absent, v1, v2}^3 for each of 7 options in fresh processes"))
@@ -459,6 +539,10 @@ def replay(path):
         for f in r["failures"]:
             print("  ", f["text"])
         return 1 if r["status"] == "violation" else 0
+    if rec["kind"] == "seq":
+        r = sequence_case(tuple(rec["item"]))
+        print(r)
+        return 0 if ("skipped" in r or r["got"] == r["want"]) else 1
     r = precedence_case(tuple(rec["item"]))
     print({k: v for k, v in r.items() if k != "header"})
     return 1
